@@ -1511,3 +1511,12 @@ MUTANTS += [
  dict(id='R11-benign-ack-write-error-not-fatal', props=['C15', 'C02', 'C03', 'C01'], expect='SILENT',
       edits=[(MS, '\t\t}\n\t}\n\tgo func() {\n\t\tfor {\n\t\t\tselect {\n\t\t\tcase <-recvCtx.Done():\n\t\t\t\treturn\n\t\t\tcase msg := <-controlWriteCh:\n\t\t\t\tif msg.done != nil {\n\t\t\t\t\tif err := writeFileDone(controlStream, *msg.done); err != nil {\n\t\t\t\t\t\tsetRecvErr(err)\n\t\t\t\t\t\treturn\n', '\t\t}\n\t}\n\tgo func() {\n\t\tfor {\n\t\t\tselect {\n\t\t\tcase <-recvCtx.Done():\n\t\t\t\treturn\n\t\t\tcase msg := <-controlWriteCh:\n\t\t\t\tif msg.done != nil {\n\t\t\t\t\tif err := writeFileDone(controlStream, *msg.done); err != nil {\n\t\t\t\t\t\treturn\n')]),
 ]
+
+# --- false alarm corrected in round 11: the folded re-send branch is dead code since F53 ---
+MUTANTS += [
+ dict(id='R11-benign-resend-branches-folded', props=['C17', 'C03', 'C04', 'C06'], expect='SILENT',
+      edits=[(MS, "\tif s.verifyPending {\n\t\t// Nothing of this file goes out before the verdict on the receiver's last\n\t\t// complete chunk is in: a re-send of that chunk must be the first thing\n\t\t// sent, because the receiver does not count it among its missing chunks.\n\t\treturn 0, 0, false\n\t}\n\tif s.scheduleDone {\n\t\tif s.resendPending {\n\t\t\tidx := s.resendChunk\n\t\t\ts.resendPending = false\n\t\t\ts.inFlight++\n\t\t\treturn idx, chunkSizeForIndex(s.item.Size, s.chunkSize, idx), true\n\t\t}\n\t\treturn 0, 0, false\n\t}\n", '\tif s.verifyPending || s.scheduleDone {\n\t\t// Nothing goes out before the verdict is in; once the schedule is exhausted\n\t\t// there is nothing left to hand out (a re-send is only ever decided for a\n\t\t// chunk the cursor has not passed).\n\t\treturn 0, 0, false\n\t}\n')]),
+ dict(id='R11-folded-and-late-resend-allowed', props=['C17'], expect='R-RESEND-',
+      edits=[(MS, "\tif s.verifyPending {\n\t\t// Nothing of this file goes out before the verdict on the receiver's last\n\t\t// complete chunk is in: a re-send of that chunk must be the first thing\n\t\t// sent, because the receiver does not count it among its missing chunks.\n\t\treturn 0, 0, false\n\t}\n\tif s.scheduleDone {\n\t\tif s.resendPending {\n\t\t\tidx := s.resendChunk\n\t\t\ts.resendPending = false\n\t\t\ts.inFlight++\n\t\t\treturn idx, chunkSizeForIndex(s.item.Size, s.chunkSize, idx), true\n\t\t}\n\t\treturn 0, 0, false\n\t}\n", '\tif s.verifyPending || s.scheduleDone {\n\t\t// Nothing goes out before the verdict is in; once the schedule is exhausted\n\t\t// there is nothing left to hand out (a re-send is only ever decided for a\n\t\t// chunk the cursor has not passed).\n\t\treturn 0, 0, false\n\t}\n'),
+             (MS, 'bitmap.Get(int(vChunk)) && vChunk >= state.nextChunk {', 'bitmap.Get(int(vChunk)) {')]),
+]
